@@ -2,7 +2,7 @@
 import ast
 
 from ..astutil import (txt, call_name, receiver, walk_local, dotted,
-                       enum_member, get_arg)
+                       enum_member, get_arg, calls_in)
 from ..loader import AnalysisError
 
 RUNMOD = 'valjean.cosette.run'
@@ -788,3 +788,71 @@ def check_call_loop(ctx):
         ctx.holds('CALL-LOOP', 'valjean.cosette.code / run',
                   'no task calls run() in a loop: one call, whose commands '
                   'stop at the first failure (RUN-LOOP)', nontrivial=False)
+
+
+# ----------------------------------------------------------- CAP-DIRECT ---
+
+SPAWNERS = {'call', 'run', 'Popen', 'check_call', 'check_output',
+            'getoutput', 'getstatusoutput', 'system', 'popen'}
+
+
+def check_cap_direct(ctx):
+    """"The captured output is what the command wrote": the child process
+    writes INTO the capture files - every spawning call of run.py hands the
+    file objects over as stdout= / stderr=.  Output routed through the parent
+    (stdout=PIPE, check_output, communicate) is decoded, its newlines
+    translated ('\\r\\n' and '\\r' become '\\n' in text mode, undecodable
+    bytes raise or are replaced) and re-written: not what the command
+    wrote."""
+    program = ctx.program
+    mod = program.module(RUNMOD)
+    program.consulted.add(mod.relpath)
+    n = 0
+    subprocess_names = {name for name, imp in mod.imports.items()
+                        if (imp[0] == 'symbol' and imp[1] in (
+                            'subprocess', 'os')) or
+                        (imp[0] == 'module' and imp[1] in ('subprocess',
+                                                           'os'))}
+    for func in mod.functions.values():
+        for call in calls_in(func.node):
+            cname = call_name(call)
+            if cname not in SPAWNERS:
+                continue
+            base = call.func.id if isinstance(call.func, ast.Name) else \
+                dotted(receiver(call)) if receiver(call) is not None else ''
+            if base not in subprocess_names:
+                continue
+            n += 1
+            kws = {k.arg: k.value for k in call.keywords if k.arg}
+            bad = None
+            if cname in ('check_output', 'getoutput', 'getstatusoutput',
+                         'system', 'popen'):
+                bad = f'{cname}() does not write into the capture files'
+            else:
+                for stream in ('stdout', 'stderr'):
+                    val = kws.get(stream)
+                    if val is None:
+                        bad = f'{stream}= not given: the output is not ' \
+                              f'captured'
+                    elif txt(val).split('.')[-1] in ('PIPE', 'DEVNULL'):
+                        bad = f'{stream}={txt(val)}: the output goes ' \
+                              f'through the parent process'
+                    elif stream == 'stderr' and txt(val).endswith('STDOUT'):
+                        bad = 'stderr merged into stdout'
+                    elif not (isinstance(val, ast.Name) and
+                              val.id in func.params) and not isinstance(
+                                  val, ast.Name):
+                        bad = f'{stream}={txt(val)[:30]} is not the ' \
+                              f'capture file'
+                    if bad:
+                        break
+            ctx.decide('CAP-DIRECT', func,
+                       f'{func.name}: {txt(call)[:50]} writes into the '
+                       f'capture files' if bad is None else
+                       f'{func.name}: {txt(call)[:50]}: {bad}', bad is None,
+                       at=func.where(call),
+                       detail=None if bad is None else
+                       'text-mode decoding and newline translation in the '
+                       'parent change the bytes; a capture through a pipe '
+                       'is also lost if the parent is interrupted')
+    ctx.floor('CAP-DIRECT', n, 1, 'process spawning calls in run.py')
